@@ -482,12 +482,13 @@ def run_property(pid, mod, tier, seed, replay=None, corpus_only=False):
     ]
     b = build([pid])
     proof_ok = pid not in b.broken
-    ass = b.assumptions.get(pid, {"theorems": [], "rc": 1})
+    no_proof = getattr(mod, "NO_PROOF", False)   # validation suites that are not properties (./check PY)
+    ass = b.assumptions.get(pid, {"theorems": [], "rc": 0 if no_proof else 1})
     theorems = ass["theorems"]
     axioms = sorted({t[1] for t in theorems if t[1] != "Closed under the global context"})
     # an obligation resting on anything but a whitelisted standard-library axiom is NOT discharged
     undischarged = [t[0] for t in theorems if t[1] != "Closed under the global context" and not axioms_whitelisted(t[1])]
-    if proof_ok and (ass["rc"] != 0 or any(t[1] == "MISSING" for t in theorems)):
+    if proof_ok and not no_proof and (not theorems or ass["rc"] != 0 or any(t[1] == "MISSING" for t in theorems)):
         proof_ok = False
         b.broken[pid] = {"file": f"Props/{pid}.v", "line": None, "error": "Print Assumptions output incomplete: " + ass.get("raw_tail", "")}
     n_obl = len(theorems) if theorems else count_theorems(pid)
@@ -578,8 +579,9 @@ def run_property(pid, mod, tier, seed, replay=None, corpus_only=False):
         "property_id": pid,
         "tier": tier,
         "seed": seed,
-        "level": "proof",
+        "level": "other" if no_proof else "proof",
         "coverage": {
+            "explanation": "differential validation of the Py micro-models against CPython" if no_proof else "see level_claimed in MANIFEST.json",
             "obligations": max(n_obl, 1),
             "discharged": n_dis,
             "checker_cmd": f"make Props/{pid}.vo (coqc 8.16.1, full .vo) in {os.path.relpath(b.dir, VERIF)}/coq; coqc Props/{pid}.v for Print Assumptions",
